@@ -1,8 +1,24 @@
 """C10 -- date filters only hide rows; they never change the figures shown."""
+from fractions import Fraction
+
 from harness import core, hist, l4, oracle
 from harness.props.c09 import dates_monotone
 
 FIG = ("ev", "lot", "amt", "proceeds", "cost", "gain", "long", "running")
+
+
+def avg_price_ok(case, t, reported):
+    """average price = cost of everything acquired up to the to-date / amount acquired up to the to-date (exact rationals,
+    tolerance 1e-27 relative for the 31-digit roundings of at most a few dozen additions and one division)"""
+    ins = [r for r in case["ins"] if t is None or hist.local_day(r["ts"]) <= t]
+    crypto = sum(r["crypto_in"] for r in ins)
+    got = oracle.frac_of_pair(reported)
+    if not ins:
+        return got == 0
+    if crypto == 0:
+        return True
+    want = sum(oracle.in_cost_with_fee(r) for r in ins) / (crypto * oracle.U11)
+    return abs(got - want) <= abs(want) * Fraction(1, 10 ** 27)
 
 
 def run(tier, build, replay=None):
@@ -82,6 +98,9 @@ def run(tier, build, replay=None):
             out.violation(f"yearly summary under window ({f}, {t}) does not cover whole years from the from-date's year up to the to-date: "
                           f"lines {diff[:3]} differ (expected {[want_y.get(k) for k in diff[:2]]}, reported {[got_y.get(k) for k in diff[:2]]})",
                           rep, tags=tags | {"yearly-window"})
+        if not avg_price_ok(c, t, i["ok"]["price_per_unit"]):
+            out.violation(f"average price under window ({f}, {t}) is {oracle.dec_of_pair(i['ok']['price_per_unit'])}: not the cost of all acquisitions up to the "
+                          "to-date divided by their amount", rep, tags=tags | {"average-price"})
         if want and len(want) < len(b["fractions"]):
             nontriv.add(core.case_hash(rep))
         if "err" in m or l4.diff_keys(i["ok"], m):
